@@ -19,6 +19,7 @@ CMP_CALLS = {
 }
 
 Cmp = namedtuple("Cmp", "bb lhs rhs rel true_bb false_bb where")
+INT_TYS = {"usize", "u8", "u16", "u32", "u64", "u128", "isize", "i8", "i16", "i32", "i64", "i128"}
 # rel: relation asserted on the edge bb->true_bb ; NEG[rel] on bb->false_bb
 
 
@@ -45,10 +46,19 @@ def comparisons(body: Body, res: Resolver = None):
         t = blk["term"]
         if t["k"] != "switch":
             continue
-        if len(t["targets"]) != 1 or t["targets"][0][0] != "0":
-            continue
         o = t["o"]
         if o["k"] not in ("copy", "move"):
+            continue
+        oty = body.local_ty(o["p"]["l"]) if not o["p"]["pr"] else ""
+        if oty in INT_TYS:
+            # `match k { 0 => .., 3 => .., _ => .. }` on an integer: one equality test per listed value
+            term = res.operand(o)
+            if term[0] == "discr":
+                continue
+            for v, dst in t["targets"]:
+                out.append(Cmp(i, term, ("int", int(v)), "==", dst, t["otherwise"], body.where(i)))
+            continue
+        if len(t["targets"]) != 1 or t["targets"][0][0] != "0":
             continue
         term = res.operand(o)
         for a in alts(term):
